@@ -5,6 +5,10 @@ V = os.path.dirname(os.path.dirname(os.path.abspath(__file__)))
 ids = [json.loads(l)['id'] for l in open(os.path.join(V, 'properties.jsonl'))]
 TECH = 'bounded symbolic execution of the real code (clang IR -> ll2c -> CBMC 6.11 / SAT), counterexamples replayed on a g++ ASan build'
 CLAIMED = {
+    'C07': ('3.C07', 'The real MemoryLeakWarningPlugin pre/post actions run around two consecutive tests that allocate through the real global operator new/delete overloads into a real detector; allocation scripts are concrete per obligation (leak, allocate+release, release the earlier test\'s block, both), expected-leak counts, ignore flags and the tests\' own pass/fail outcomes are symbolic: a leak failure is added iff the reference says so, the report lists exactly the test\'s own outstanding blocks, earlier leaks are not charged or offset, and nothing stays in the checking period.',
+            'report text builders replaced by a recorder of listed blocks; 4 hash buckets via hook; 3 scripts in the quick tier, 6 in thorough; ~13 GB per obligation'),
+    'C10': ('3.C10', 'NOT an interleaving exploration: the solver decides, on the real wrappers and overload table, that in thread-safe mode each of the 9 entry points (new, new debug, new[], new[] debug, delete, delete[], malloc, realloc, free) takes the detector lock exactly once, performs every detector operation with it held and releases it on return, and that the off / default modes never touch the lock (the table is switched consistently). Mutual exclusion => serialisability is assumed, then C04-C06 apply. The misuse-report path leaving with the lock held is the open known finding KF-C10-1, re-demonstrated on every run.',
+            'mutex = held flag; detector operations are lock-observing contract stubs in the translated world (real detector in the differential build); nothrow overloads not in the verified configuration; no thread schedule is explored'),
     'C05': ('3.C05', 'The size arithmetic of tracked allocation is decided for EVERY 64-bit request size in both the malloc and realloc paths (the accounted size never wraps, requests that do not fit are refused); whole allocations of 0/1/7/8/13 bytes are run through the real detector with family and bookkeeping layout symbolic (block placement, coverage of user+guard+record, all requested bytes usable, clean release); realloc preservation / failure handling are thorough-tier obligations; calloc/strdup/strndup under failure and overflow are decided in check C15. Open known finding KF-C05-2 (failed realloc untracks the block) is excluded and re-demonstrated.',
             'underlying allocator model; report text builders replaced by their category; 4 hash buckets via hook; realloc obligations only in the thorough tier'),
     'C06': ('3.C06', 'One tracked block of 0/1/5/8 bytes with symbolic allocating and releasing family, bookkeeping layout, type checking flag, one write of any value at any position of user or guard bytes, and a released address that is the block, an interior address, a foreign address or NULL: the report category (none / non-allocated / mismatch / corruption) equals the reference, the outstanding set is exact, and user bytes are poisoned before release.',
